@@ -650,3 +650,56 @@ func tokRawOK(prevStart, prevEnd, n int, baseOffset int64, num uint64) bool {
 //@ ensures kept: !result ==> sameSlice(e.Buf, old(e.Buf)) && e.Tokens.Last == old(e.Tokens.Last)
 //@ ensures cut: result ==> len(e.Buf) < old(len(e.Buf)) && sameSlice(e.Buf, old(e.Buf)[:len(e.Buf)]) && seCount(e.Tokens.Last) == seCount(old(e.Tokens.Last))-2 && seObj(e.Tokens.Last) && seDisabled(e.Tokens.Last) == seDisabled(old(e.Tokens.Last)) && seInvalid(e.Tokens.Last) == seInvalid(old(e.Tokens.Last))
 //@ ensures depth: len(e.Tokens.Stack) == old(len(e.Tokens.Stack)) && len(e.Names.offsets) == old(len(e.Names.offsets))
+
+// putBufferedEncoder keeps or drops the pooled encoder's buffer; it never touches
+// any other buffer.
+//
+//@ func putBufferedEncoder
+//@ property C18 C12 C20
+//@ requires e != nil
+//@ modifies e.s.encodeBuffer.Buf, e.s.encodeBuffer.availBuffer, e.s.encodeBuffer.bufStats
+//@ ensures kept-or-dropped: sameSlice(e.s.Buf, old(e.s.Buf)) || (len(e.s.Buf) == 0 && cap(e.s.Buf) == 0)
+
+// Value.format (Format, Compact, Indent, Canonicalize): the value handed back never
+// aliases the scratch encoder's buffer, which goes back to the pool when format
+// returns (a later Format/Compact/Indent call would overwrite the caller's value).
+// Thin contract: WriteValue's effect on the value is not decided here (it is
+// `modifies everything`); assumed: the pooled encoder's buffer is not the caller's
+// value to begin with.
+//
+//@ extern bytes.Equal(a, b []byte) (result bool)
+//@ trusted bytes: pure comparison
+
+//@ func (*Value).format
+//@ property C12
+//@ assertions-only WriteValue has no frame (see its contract): only the aliasing of the result with the pooled buffer is decided
+//@ requires v != nil
+//@ modifies everything
+//@ at call bytes.Equal#0 assume-before pool-private: distinctArrays(*v, e.s.Buf)
+//@ at return#1 assert result-not-pooled: len(*v) == 0 || cap(e.s.Buf) == 0 || distinctArrays(*v, e.s.Buf)
+
+// ---------------------------------------------------------------- canonical member order
+//
+// objectMember.Compare orders by the UTF-16 code units of the names first (the
+// member text only breaks ties). mustReorderObjectsFromDecoder may skip sorting only
+// if every adjacent pair it saw was in that order: when the "already sorted" flag is
+// still set as a member is recorded, the previous name does not come after it in
+// UTF-16 order. (Thin contracts: the decoder calls and the recursion are havocked;
+// well-formedness of the names - they were unquoted from validated strings - is
+// assumed as CompareUTF16's precondition.)
+
+//@ extern bytes.TrimLeft(s []byte, cutset string) (result []byte)
+//@ trusted bytes: returns a suffix of s
+//@ ensures len(result) <= len(s)
+
+//@ func (objectMember).Compare
+//@ property C13
+//@ assertions-only CompareUTF16's well-formedness precondition on names and member text is assumed
+//@ ensures by-name: jsonwire.Cmp16(x.name, y.name) != 0 ==> result == jsonwire.Cmp16(x.name, y.name)
+
+//@ func mustReorderObjectsFromDecoder
+//@ property C13
+//@ assertions-only decoder calls, recursion and the in-place move are havocked: only the soundness of the already-sorted shortcut is decided
+//@ requires d != nil && scratch != nil
+//@ modifies everything
+//@ at call append#0 assert-before sorted-so-far: isSorted && len(*members) > 0 ==> jsonwire.Cmp16(prevMember.name, currMember.name) <= 0
